@@ -939,6 +939,18 @@ static int conf_replace_value(struct conf_node_base *target_, struct conf_node_b
                         modified = 1;
                     tnode = next;
                 } else {
+                    struct conf_node_base *tbase = set_node_data(tnode);
+                    struct conf_node_base *sbase = set_node_data(snode);
+
+                    /* Keys compare case-insensitively; adopt the new
+                     * file's spelling and report it as a change.
+                     */
+                    if (strcmp(tbase->name, sbase->name)) {
+                        char *tmp = tbase->name;
+                        tbase->name = sbase->name;
+                        sbase->name = tmp;
+                        modified = 1;
+                    }
                     /* Present in both: update value. */
                     conf_replace_value(set_node_data(tnode), set_node_data(snode));
                     tnode = set_next(tnode);
